@@ -175,6 +175,22 @@ def main():
                     errs = [e for e in prep.get('errors', [])][:30]
                     path = common.write_replay(prop, n, {'kind': 'no-failing-input-found', 'broken': reasons, 'build_errors': errs})
                     violations.append(('no-failing-input-found', path))
+        # ---- thorough: independent re-check of the compiled proof modules by leanchecker
+        leancheck = None
+        if tier == 'thorough' and thms:
+            mods = sorted({t['module'] for t in thms})
+            hand = [m for m in mods if not m.startswith('Props.Auto.')]
+            auto = [m for m in mods if m.startswith('Props.Auto.')]
+            sel = hand + auto[:25]
+            try:
+                p = subprocess.run(['lake', 'env', 'leanchecker'] + sel, cwd=common.LEAN_DIR, capture_output=True, text=True, timeout=3000)
+                leancheck = {'modules': len(sel), 'of': len(mods), 'rc': p.returncode, 'tail': (p.stdout + p.stderr)[-300:]}
+                if p.returncode != 0:
+                    n += 1
+                    path = common.write_replay(prop, n, {'kind': 'no-failing-input-found', 'broken': [{'leanchecker': leancheck}]})
+                    violations.append(('no-failing-input-found', path))
+            except subprocess.TimeoutExpired:
+                leancheck = {'modules': len(sel), 'rc': 'timeout'}
         # ---- 7 evidence
         discharged = sum(1 for t in thms if status[t['name']]['status'] == 'ok')
         axioms_seen = sorted({a for t in thms for a in status[t['name']].get('axioms', [])})
@@ -196,6 +212,7 @@ def main():
             'search': {'cases': search.get('cases', 0), 'failing_new': len(new), 'failing_known': len(known),
                        'distribution': search.get('distribution', {}), 'exhaustive': search.get('exhaustive', False)},
             'explanation': cfg.get('explanation', ''),
+            'leanchecker': leancheck,
         }
         evidence['coverage'] = cov
         evidence['violations'] = len(violations)
